@@ -12,7 +12,7 @@ RULE = ('case = one real step in User mode on (word, set, IT position, secure/no
         'on/off) with every banked/system register pre-filled with random values; words: all 2^16 Thumb-16 words, '
         'solved members of every ARM/Thumb-32 decoder path, random words, 5-instruction sequences; the full state '
         'diff is judged. Second part: LDRT/STRT-family words built from the architecture encodings executed in '
-        'privileged modes on a privileged-only MPU region. every system-level / bank-naming instruction row with all mode numbers, masks and P/U/W values x registers {0,1,SP,LR,PC} in User mode; LDRT/STRT-family also unaligned, straddling the protected region, with the SP as base, and on addresses only the background region covers (SCTLR.BR = 1, no covering region). non-trivial = the step changed something besides the PC '
+        'privileged modes on a privileged-only MPU region. every system-level / bank-naming instruction row with all mode numbers, masks and P/U/W values x registers {0,1,SP,LR,PC} in User mode; LDRT/STRT-family also unaligned, straddling the protected region, with the SP as base, and on addresses only the background region covers (SCTLR.BR = 1, no covering region); with the MMU on (short- and long-descriptor tables) on pages reserved for privileged code by the AP bits of the leaf or by APTable<0> of a level-1 table descriptor above two further levels. non-trivial = the step changed something besides the PC '
         'or took an exception; distinct = (set, path id / word>>4, outcome class, context)')
 ASSUMPTIONS = ['the unprivileged location set: R0-R14_usr, PC, APSR.NZCVQ/GE, CPSR.E/IT/T/J, event register, wait '
                'flags, memory the harness mapped as user-writable',
@@ -45,6 +45,7 @@ def plan(tier, seed):
         specs.append(dict(kind='seq', seed=seed, shard=i, n=600 if q else 20000))
     for i in range(2 if q else 8):
         specs.append(dict(kind='unpriv', seed=seed, shard=i, n=3000 if q else 60000))
+        specs.append(dict(kind='unpriv-vmsa', seed=seed, shard=i, n=1200 if q else 30000))
     for i in range(4 if q else 16):
         specs.append(dict(kind='sysrows', seed=seed, shard=i, of=4 if q else 16, cap=1200 if q else 40000))
     return specs
@@ -320,6 +321,70 @@ def unpriv(mon, spec):
         ArmV6.translate_address = orig
 
 
+# virtual addresses that only privileged code may access, per translation context (vf/scen.py _program_mmu / _program_mmu_ld):
+# a privileged-only section alias and small page; a privileged-only 2 MB block and page of the long-descriptor layout and the
+# window whose LEVEL-1 table descriptor removes PL0 access (APTable<0>) from pages that would otherwise allow it
+VMSA_PRIV_ONLY = {
+    ('v7-vmsa-sec', 'mmu'): [0x00100100, 0x00100104, 0x00101001, 0x00201004, 0x00201802, 0x00201FF0],
+    ('v6-vmsa', 'mmu'): [0x00100100, 0x00100104, 0x00101001, 0x00201004, 0x00201802, 0x00201FF0],
+    ('v7-vmsa-virt', 'mmu-ld'): [0x40000100, 0x40000104, 0x40001001, 0x40002FF0, 0x4000F802, 0x600100, 0x600104, 0x601003, 0x1004, 0x1801],
+}
+
+
+def unpriv_vmsa(mon, spec):
+    """the unprivileged load/store variants in privileged modes with the MMU on: on a virtual address that the page tables
+    reserve for privileged code (by the leaf's AP bits or by a table descriptor higher up) they abort and store nothing"""
+    from vf import observe
+    rng = mon.rng
+    for i in range(spec['n']):
+        kind = rng.choice(['arm', 't32'])
+        name, base, immmask = rng.choice(UNPRIV[kind])
+        ctxkey = rng.choice(list(VMSA_PRIV_ONLY))
+        ctx = mon.ctx(ctxkey)
+        ns = rng.randrange(2) if ctx.cfg['have_security_ext'] else 0
+        mode = rng.choice([m for m in ctx.legal_modes(ns) if m not in ('usr', 'hyp')])
+        rn, rt, rm = rng.sample([0, 1, 2, 3, 4, 5, 6, 7, 8, 9, 10, 11, 12, 14], 3)
+        target = rng.choice(VMSA_PRIV_ONLY[ctxkey])
+        if name[3:5] in ('HT', 'SH'):
+            target &= ~1
+        imm = rng.choice([0, 0, 4, 8]) & immmask
+        w = base | imm
+        regs = [None] * 15
+        if kind == 'arm':
+            w |= 0xE0000000 | (rng.randrange(2) << 23) | (rn << 16) | (rt << 12)
+            if name.endswith('A2'):
+                w = (w & ~0xF) | rm
+                regs[rm] = 0
+            if name in ('LDRHT_A1', 'STRHT_A1', 'LDRSBT_A1', 'LDRSHT_A1'):
+                w = (w & ~0xF0F) | (imm & 0xF) | (((imm >> 4) & 0xF) << 8)
+            regs[rn] = target
+        else:
+            w |= (rn << 16) | (rt << 12)
+            regs[rn] = (target - imm) & 0xFFFFFFFF
+        desc = mon.scen.prepare(ctx, rng, kind, w, mode=mode, itpos='out', ns=ns, regs=regs)
+        desc['insn'] = name
+        r = ctx.cpu.registers
+        if ctx.cfg['arch_version'] >= 7:
+            r.sctlr.u = 1
+        elif ctx.cfg['arch_version'] == 6:
+            r.sctlr.u = 1 if rng.random() < 0.7 else 0
+        if ctx.cfg['arch_version'] < 7 and not r.sctlr.u:
+            target &= ~3
+        pre = observe.snapshot(ctx.cpu)
+        k, sig = mon.scen.step(ctx.cpu)
+        post = observe.snapshot(ctx.cpu)
+        mon.res['evaluations'] += 1
+        if k != 'ok' or type(ctx.cpu.executed_opcode).__name__ == 'NoneType':
+            mon.bump('unpriv_vmsa_not_executed')
+            continue
+        mon.bump('unpriv_vmsa_on_protected')
+        mon.res['nontrivial'].add('unpriv-vmsa|%s|%s|%s|%#x' % (name, ctxkey[1], mode, target >> 12))
+        if (post['cpsr'] & 0x1F) != 0b10111:
+            mon.report('C19|unpriv-variant-not-aborted-on-privileged-only-page|%s|%s' % (name, ctxkey[1]), dict(desc, target='%#x' % target), desc)
+        elif any(pre[m_] != post[m_] for m_ in pre if m_.startswith('mem')):
+            mon.report('C19|unpriv-variant-stored-despite-abort|%s|%s' % (name, ctxkey[1]), dict(desc, target='%#x' % target), desc)
+
+
 def run_shard(spec):
     from vf import trace_decode as td, observe, machine as M
     mon = Mon(spec)
@@ -415,6 +480,8 @@ def run_shard(spec):
                     break
     elif kind == 'unpriv':
         unpriv(mon, spec)
+    elif kind == 'unpriv-vmsa':
+        unpriv_vmsa(mon, spec)
     mon.res['violations'] = list(mon.viol.values())
     return mon.res
 
